@@ -17,6 +17,7 @@ func checkC12(c *Ctx) {
 	c12ReplaceRefresh(c)
 	c12Paired(c)
 	c12Constructors(c)
+	c12MutatorResults(c)
 	c12Mirror(c)
 	c.NotCovered("that the serialised file equals the prediction of a map/list model; comment preservation of untouched items")
 	c.NotCovered("ownership of caller-supplied token slices (whether an API entry point copies the slice it is given)")
@@ -395,4 +396,75 @@ func c12Mirror(c *Ctx) {
 			c.CheckerFail("mirror", fmt.Sprintf("%s: only %d assignments found", name, len(keys)))
 		}
 	}
+}
+
+// R5 mutator.result: an editing method that always changes the tree hands back the thing it made
+// or changed.
+func c12MutatorResults(c *Ctx) {
+	c.Rule("R5 mutator.result: every exported method of hclwrite.Body / Block that, on every path, appends an item or replaces a node (calls appendItem, appendItemNode or ReplaceWith) and returns a pointer returns one that is never nil (E-nonnil): the handle of the attribute or block that the call created or modified, with which the caller goes on editing")
+	muts := map[*ssa.Function]bool{}
+	for _, n := range []string{"Body.appendItem", "Body.appendItemNode", "node.ReplaceWith"} {
+		if f := c.P.LookupFunc("hclwrite", n); f != nil {
+			muts[f] = true
+		} else {
+			c.CheckerFail("mutator.result", "anchor hclwrite."+n+" does not resolve")
+		}
+	}
+	alwaysMutates := func(f *ssa.Function) bool {
+		seen := map[*ssa.BasicBlock]bool{}
+		var walk func(b *ssa.BasicBlock) bool
+		walk = func(b *ssa.BasicBlock) bool {
+			if seen[b] {
+				return true
+			}
+			seen[b] = true
+			for _, ins := range b.Instrs {
+				if call, ok := ins.(*ssa.Call); ok && muts[call.Call.StaticCallee()] {
+					return true
+				}
+				if _, ok := ins.(*ssa.Return); ok {
+					return false
+				}
+			}
+			for _, su := range b.Succs {
+				if !walk(su) {
+					return false
+				}
+			}
+			return true
+		}
+		return len(f.Blocks) > 0 && walk(f.Blocks[0])
+	}
+	e := newNonNilEngine(c.P)
+	n := 0
+	for _, fn := range c.P.pkgFuncs("hclwrite") {
+		if fn.Parent() != nil || fn.Object() == nil || !fn.Object().Exported() || fn.Signature.Recv() == nil || fn.Signature.Results().Len() != 1 {
+			continue
+		}
+		if _, isPtr := fn.Signature.Results().At(0).Type().(*types.Pointer); !isPtr {
+			continue
+		}
+		if rn := namedOf(fn.Signature.Recv().Type()); rn == nil || (rn.Obj().Name() != "Body" && rn.Obj().Name() != "Block") {
+			continue
+		}
+		if !alwaysMutates(fn) {
+			continue
+		}
+		n++
+		c.Sites++
+		c.Fn(FuncName(fn))
+		ok := e.resultNonNil(fn, 0)
+		why := ""
+		if !ok {
+			if !e.resultNilReach(fn, 0) {
+				// what is returned is a value nothing is known about (the caller's own argument)
+				c.OK("mutator.result", FuncName(fn)+":result", fn.Pos(), "no nil constant can flow into the result")
+				continue
+			}
+			why = e.explain(fn, 0, 0)
+		}
+		c.Check(ok, "mutator.result", FuncName(fn)+":result", fn.Pos(), "never nil",
+			"the method always edits the tree but can return nil ("+why+"): the caller, told it gets the attribute or block back, dereferences nil")
+	}
+	c.Floor("mutator.result methods", n, 3, "SetAttributeRaw / SetAttributeValue / SetAttributeTraversal / AppendBlock / AppendNewBlock")
 }
